@@ -97,12 +97,77 @@ def add_scheme(reg):
                      opaque=['spec.der.encode_length', S + 'digest_info']))
 
 
+# ---------------------------------------------------------------- RsaKey primitives
+
+KEY = RSA + 'RsaKey'
+IN_RANGE = '0 <= ciphertext and ciphertext < self._n._value'
+# the blinding factor: the (single) draw of this call from the SYSTEM entropy source, requested as random_range(1, n - 1)
+R_ = 'sys_range(old(sys_cursor()), 1, self._n._value - 1)'
+
+
+def add_key_primitives(reg):
+    reg.add(Contract(KEY + '.size_in_bits', params={}, raises={}, modifies=[], result='int',
+                     ensures={'bits': 'result == spec.mathint.size_in_bits(self._n._value)'}))
+    reg.add(Contract(KEY + '.size_in_bytes', params={}, raises={}, modifies=[], result='int',
+                     ensures={'k': 'result == %soctets(self._n._value)' % S},
+                     returns=S + 'octets(self._n._value)'))
+    # legacy RSADP as an integer: through the assumed value contract of _decrypt_to_bytes
+    reg.add(Contract(KEY + '._decrypt', params={'ciphertext': 'int'},
+                     raises={'ValueError': ('iff', 'not (%s)' % IN_RANGE),
+                             'TypeError': ('iff', '%s and not hasattr(self, "_d")' % IN_RANGE)},
+                     ensures={'rsadp': 'result == pow(ciphertext, self._d._value, self._n._value)'},
+                     modifies=[], result='int'))
+
+
+def private_key_class(reg):
+    """RsaKey as RsaKey.__init__ leaves it (C05): public (n, e) or private with all of d, p, q, u, dp = d mod (p-1),
+    dq = d mod (q-1); only the ranges that keep the Integer operations of the private operation defined are stated"""
+    reg.add(ClassContract(KEY,
+                          fields={'_n': OINT, '_e': OINT, '_d?': OINT, '_p?': OINT, '_q?': OINT, '_u?': OINT, '_dp?': OINT, '_dq?': OINT},
+                          valid=['self._n._value >= 3', 'self._n._value % 2 == 1', 'self._e._value >= 1',
+                                 'hasattr(self, "_d") == hasattr(self, "_p")', 'hasattr(self, "_d") == hasattr(self, "_q")',
+                                 'hasattr(self, "_d") == hasattr(self, "_u")', 'hasattr(self, "_d") == hasattr(self, "_dp")',
+                                 'hasattr(self, "_d") == hasattr(self, "_dq")',
+                                 'not hasattr(self, "_d") or (self._d._value >= 1 and self._p._value >= 2 and self._q._value >= 2 '
+                                 'and self._dp._value >= 0 and self._dq._value >= 0)']))
+
+
+def body_contract():
+    """what is PROVED of the real body of RsaKey._decrypt_to_bytes (its value == c^d mod n is the assumed contract of
+    sig_common: blinded CRT algebra is out of reach of the engine)"""
+    return Contract(KEY + '._decrypt_to_bytes', params={'ciphertext': 'int'},
+                    raises={
+                        # RFC 8017 5.1.2 "ciphertext representative out of range"; besides, a blinding factor that shares a
+                        # factor with n has no inverse and Integer.inverse refuses: probability (p + q - 2)/(n - 1), stated, not hidden
+                        'ValueError': ('iff', 'not (%s) or (hasattr(self, "_d") and not spec.mathint.invertible(%s, self._n._value))'
+                                       % (IN_RANGE, R_.replace('old(sys_cursor())', 'sys_cursor()'))),
+                        'TypeError': ('iff', '%s and not hasattr(self, "_d")' % IN_RANGE)},
+                    ensures={'length': 'len(result) == %soctets(self._n._value)' % S,
+                             # C18: exactly one draw, from the system source, none from a caller's tape; the draw is the
+                             # request random_range(min_inclusive=1, max_exclusive=n), hence in [1, n-1]
+                             'one_system_draw': 'sys_cursor() == old(sys_cursor()) + 1 and rnd_cursor() == old(rnd_cursor())',
+                             'blinding_range': '1 <= %s and %s <= self._n._value - 1' % (R_, R_),
+                             # the unblinding multiplies by the inverse of THAT draw (this pins the bounds passed to random_range)
+                             'unblinded': 'result == i2osp((spec.mathint.modinv(%s, self._n._value) * '
+                                          'spec.rfc8017.rsadp_crt_blinded(ciphertext, %s, self._n._value, self._e._value, self._p._value, '
+                                          'self._q._value, self._dp._value, self._dq._value, self._u._value)) %% self._n._value, '
+                                          '%soctets(self._n._value))' % (R_, R_, S)},
+                    on_raise={'ValueError': ['(%s) ==> sys_cursor() == old(sys_cursor()) + 1' % IN_RANGE,
+                                             'not (%s) ==> sys_cursor() == old(sys_cursor())' % IN_RANGE],
+                              'TypeError': ['sys_cursor() == old(sys_cursor())']},
+                    modifies=[], result='bytes')
+
+
 def registry(body=False):
     reg = common_registry()
     add_rsa_key(reg)
     add_der_leaves(reg)
     add_emsa(reg)
     add_scheme(reg)
+    add_key_primitives(reg)
+    if body:
+        private_key_class(reg)
+        reg.add(body_contract())
     return reg
 
 
@@ -114,5 +179,7 @@ def units(prop, tier):
     out.append(pyvc_unit(prop, 'sig.pkcs1.emsa_encode', registry, [P + '_EMSA_PKCS1_V1_5_ENCODE']))
     out.append(pyvc_unit(prop, 'sig.pkcs1.verify', registry, [P + 'PKCS115_SigScheme.verify']))
     out.append(pyvc_unit(prop, 'sig.pkcs1.sign', registry, [P + 'PKCS115_SigScheme.sign']))
-    out.append(pyvc_unit(prop, 'sig.pkcs1.RsaKey._encrypt', registry, [RSA + 'RsaKey._encrypt']))
+    out.append(pyvc_unit(prop, 'sig.pkcs1.RsaKey.primitives', registry,
+                         [KEY + '._encrypt', KEY + '._decrypt', KEY + '.size_in_bits', KEY + '.size_in_bytes']))
+    out.append(pyvc_unit(prop, 'sig.pkcs1.RsaKey._decrypt_to_bytes.body', (lambda: registry(True)), [KEY + '._decrypt_to_bytes']))
     return out
